@@ -53,6 +53,27 @@ func c32Excluded(id string) bool {
 	return false
 }
 
+// c32Same says whether dolt identifies column a of `from` with column b of `to`. Dolt goes by
+// column tags: a renamed/modified column keeps its tag (same UID here); a column that was dropped
+// and re-added with the same name and type gets the same tag again only if the table still has
+// the name under which the tag was first derived. The harness cannot know which, so the shape
+// predicates are evaluated under both readings (see c32Either) and a pair is left out when
+// either reading shows the finding's shape.
+var c32NameIdent = true
+
+func c32Same(a, b hCol) bool {
+	return a.UID == b.UID || (c32NameIdent && a.Name == b.Name && a.Type == b.Type)
+}
+
+func c32Either(f func(from, to *hTable) bool, from, to *hTable) bool {
+	c32NameIdent = true
+	x := f(from, to)
+	c32NameIdent = false
+	y := f(from, to)
+	c32NameIdent = true
+	return x || y
+}
+
 // c32ShapeDropIdxCol: some index of `from` is gone at `to` together with its column.
 func c32ShapeDropIdxCol(from, to *hTable) bool {
 	if from == nil || to == nil {
@@ -65,7 +86,7 @@ func c32ShapeDropIdxCol(from, to *hTable) bool {
 		fcol := from.Cols[from.colIndex(col)]
 		gone := true
 		for _, tc := range to.Cols {
-			if tc.UID == fcol.UID || (tc.Name == col && tc.Type == fcol.Type) {
+			if c32Same(fcol, tc) {
 				gone = false
 			}
 		}
@@ -82,7 +103,7 @@ func c32ShapeColOrder(from, to *hTable) bool {
 	if from == nil || to == nil {
 		return false
 	}
-	match := func(a, b hCol) bool { return a.UID == b.UID || (a.Name == b.Name && a.Type == b.Type) }
+	match := c32Same
 	var want []string
 	for _, fc := range from.Cols {
 		for _, tc := range to.Cols {
@@ -157,7 +178,7 @@ func c32ShapeDefaultNull(from, to *hTable) bool {
 		}
 		isNew := true
 		for _, fc := range from.Cols {
-			if fc.UID == tc.UID || (fc.Name == tc.Name && fc.Type == tc.Type) {
+			if c32Same(fc, tc) {
 				isNew = false
 			}
 		}
@@ -180,7 +201,7 @@ func c32ShapeDefaultChange(from, to *hTable) bool {
 	}
 	for _, tc := range to.Cols {
 		for _, fc := range from.Cols {
-			if (fc.UID == tc.UID || (fc.Name == tc.Name && fc.Type == tc.Type)) && fc.Def != tc.Def {
+			if c32Same(fc, tc) && fc.Def != tc.Def {
 				return true
 			}
 		}
@@ -941,19 +962,19 @@ func (c *c32Checker) patch(fi, ti int) {
 		switch {
 		case cd.rename && c32ShapeRenameDropIdx(from, to) && c32Excluded(c32FRenameDropIdx):
 			shape = c32FRenameDropIdx
-		case c32ShapeDropIdxCol(from, to) && c32Excluded(c32FDropIdxCol):
+		case c32Either(c32ShapeDropIdxCol, from, to) && c32Excluded(c32FDropIdxCol):
 			shape = c32FDropIdxCol
 		case !cd.rename && c32ShapePKIndex(from, to) && c32Excluded(c32FPKIndex):
 			shape = c32FPKIndex
-		case c32ShapeRenamedNull(from, to) && c32Excluded(c32FRenamedNull):
+		case c32Either(c32ShapeRenamedNull, from, to) && c32Excluded(c32FRenamedNull):
 			shape = c32FRenamedNull
-		case c32ShapeRenameOnto(from, to) && c32Excluded(c32FRenameOnto):
+		case c32Either(c32ShapeRenameOnto, from, to) && c32Excluded(c32FRenameOnto):
 			shape = c32FRenameOnto
-		case c32ShapeDefaultNull(from, to) && c32Excluded(c32FDefaultNull):
+		case c32Either(c32ShapeDefaultNull, from, to) && c32Excluded(c32FDefaultNull):
 			shape = c32FDefaultNull
-		case c32ShapeDefaultChange(from, to) && c32Excluded(c32FDefaultChange):
+		case c32Either(c32ShapeDefaultChange, from, to) && c32Excluded(c32FDefaultChange):
 			shape = c32FDefaultChange
-		case c32ShapeSameName(from, to) && c32Excluded(c32FSameName):
+		case c32Either(c32ShapeSameName, from, to) && c32Excluded(c32FSameName):
 			shape = c32FSameName
 		}
 		if shape != "" {
@@ -1033,10 +1054,10 @@ func (c *c32Checker) patch(fi, ti int) {
 			c.fail("C32 dolt_patch: SHOW CREATE TABLE %s: %v / %v", name, err1, err2)
 		}
 		if c32Excluded(c32FColOrder) {
-			shape := c32ShapeColOrder(fc.State[name], want)
+			shape := c32Either(c32ShapeColOrder, fc.State[name], want)
 			if fc.State[name] == nil { // possibly renamed from a table that exists only at `from`
 				for _, other := range h.cfg.TablePool {
-					if tc.State[other] == nil && fc.State[other] != nil && c32Overlap(fc.State[other], want) && c32ShapeColOrder(fc.State[other], want) {
+					if tc.State[other] == nil && fc.State[other] != nil && c32Overlap(fc.State[other], want) && c32Either(c32ShapeColOrder, fc.State[other], want) {
 						shape = true
 					}
 				}
@@ -1217,7 +1238,7 @@ func c32RunPinned(t *testing.T, srv *vsql.Server, admin *vsql.Session, pc c32Pin
 	return ""
 }
 
-const c32Rule = "rapid-generated histories of 2..4 commits (+ the empty initial commit) of row edits over INT,BIGINT,VARCHAR,VARBINARY,DECIMAL,DATE,DATETIME(6),JSON,TEXT values (NULLs, quotes, backslashes, NUL bytes, newlines, binary) and schema changes (ADD/DROP/RENAME/MODIFY COLUMN, CREATE/DROP INDEX, CREATE/DROP/RENAME TABLE, tables re-created under an old name); for every ordered pair of commits dolt_diff(from,to,t) is compared row by row with the diff of the recorded models (every reported row: right key, diff_type, from_/to_ values, once; every added/removed row and every row with a changed common column or a non-NULL value in an added column reported), dolt_diff_stat and dolt_diff_summary with the model's counts and changed-table set, dolt_diff_<t> for parent/child pairs, and the statements of dolt_patch(from,to) are executed in order on a scratch branch created at `from`, after which table set, rows and SHOW CREATE TABLE must equal `to`. Non-trivial: the pair set of the case contains added, removed and modified rows, a pair with a schema change, and a value that needs escaping; distinct by operation sequence."
+const c32Rule = "rapid-generated histories of 2..4 commits (+ the empty initial commit) of row edits over INT,BIGINT,VARCHAR,VARBINARY,DECIMAL,DATE,DATETIME(6),JSON,TEXT values (NULLs, quotes, backslashes, NUL bytes, newlines, binary) and schema changes (ADD/DROP/RENAME/MODIFY COLUMN, CREATE/DROP INDEX, CREATE/DROP/RENAME TABLE, tables re-created under an old name; tables have 1..3 key columns of INT/VARCHAR whose PRIMARY KEY clause lists them in a drawn order that in about a third of the cases differs from the declaration order, key values of different key columns never coincide); for every ordered pair of commits dolt_diff(from,to,t) is compared row by row with the diff of the recorded models (every reported row: right key, diff_type, from_/to_ values, once; every added/removed row and every row with a changed common column or a non-NULL value in an added column reported), dolt_diff_stat and dolt_diff_summary with the model's counts and changed-table set, dolt_diff_<t> for parent/child pairs, and the statements of dolt_patch(from,to) are executed in order on a scratch branch created at `from`, after which table set, rows and SHOW CREATE TABLE must equal `to`. Non-trivial: the pair set of the case contains added, removed and modified rows, a pair with a schema change, and a value that needs escaping; distinct by operation sequence."
 
 func c32Run(t *testing.T, rec *vh.Recorder, part string, quick, thorough int, cfg hConfig, opts c32Opts) {
 	dir, cleanup := vh.ScratchDir(t, "c32")
